@@ -92,7 +92,13 @@ func libProtect(m model.Message, sa *security.IKESAKey, sendI bool, entropy []by
 		return probe.Try(func() error { var e error; w, e = ike.EncodeEncrypt(lm, sa, bridge.Role(sendI)); return e })
 	}
 	if len(entropy) > 0 {
-		probe.WithEntropy(entropy, 0, func(e *probe.Entropy) { err = call(); chunks = e.Chunks })
+		// a quarter of the injected streams are delivered in short reads (at most 1..17 octets per Read, chosen by the
+		// stream's own octets so that the case stays a pure function of its input): the io.Reader contract allows that
+		o := probe.EntropyOpts{Stream: entropy}
+		if entropy[0]%4 == 3 {
+			o.MaxRead = 1 + int(entropy[len(entropy)-1])%17
+		}
+		probe.WithEntropyOpts(o, func(e *probe.Entropy) { err = call(); chunks = e.Chunks })
 	} else {
 		err = call()
 	}
